@@ -275,3 +275,174 @@ Proof.
   rewrite forallb_forall in Ek. specialize (Ek n Hin).
   destruct (find_kind ks n) as [k|]; [|discriminate]. exists k. split; [reflexivity | exact Ek].
 Qed.
+
+(* ---------------------------------------------------------------- import activation *)
+Local Open Scope list_scope.
+(* induction principle for the nested type of Go types *)
+Fixpoint gty_ind2 (P : gty -> Prop)
+  (Hb : forall k, P (TyBasic k)) (Hp : forall t, P t -> P (TyPtr t))
+  (Hs : forall t, P t -> P (TySlice t)) (Ha : forall n t, P t -> P (TyArray n t))
+  (Hm : forall k v, P k -> P v -> P (TyMap k v))
+  (Hn : forall pkg name args, Forall P args -> P (TyNamed pkg name args))
+  (Ho : forall s, P (TyOther s)) (t : gty) {struct t} : P t :=
+  let rec := gty_ind2 P Hb Hp Hs Ha Hm Hn Ho in
+  match t with
+  | TyBasic k => Hb k
+  | TyPtr t1 => Hp t1 (rec t1)
+  | TySlice t1 => Hs t1 (rec t1)
+  | TyArray n t1 => Ha n t1 (rec t1)
+  | TyMap k v => Hm k v (rec k) (rec v)
+  | TyNamed pkg name args =>
+      Hn pkg name args
+         ((fix go (ts : list gty) : Forall P ts :=
+             match ts with
+             | [] => Forall_nil P
+             | a :: rest => Forall_cons a (rec a) (go rest)
+             end) args)
+  | TyOther s => Ho s
+  end.
+
+Lemma mark_in_use_some : forall path l a l', mark_in_use path l = Some (a, l') ->
+  In path (active_paths l') /\ (forall q, In q (active_paths l) -> In q (active_paths l')).
+Proof.
+  intros path l. induction l as [|d rest IH]; intros a l' H; cbn [mark_in_use] in H.
+  - discriminate.
+  - destruct (String.eqb (id_path d) path) eqn:E.
+    + inversion H; subst; clear H. apply String.eqb_eq in E. split.
+      * unfold active_paths, get_active. cbn. left. exact E.
+      * intros q Hq. unfold active_paths, get_active in *. cbn [filter id_in_use].
+        destruct (id_in_use d) eqn:Eu; cbn [filter] in Hq; rewrite ?Eu in Hq.
+        -- cbn in Hq. cbn. exact Hq.
+        -- cbn. right. exact Hq.
+    + destruct (mark_in_use path rest) as [[a0 rest']|] eqn:Em; [|discriminate].
+      inversion H; subst; clear H. destruct (IH a rest' eq_refl) as [Hin Hmono]. split.
+      * unfold active_paths, get_active in *. cbn [filter].
+        destruct (id_in_use d); cbn; [right|]; exact Hin.
+      * intros q Hq. unfold active_paths, get_active in *. cbn [filter] in *.
+        destruct (id_in_use d); cbn in *.
+        -- destruct Hq as [Hq|Hq]; [left; exact Hq | right; apply Hmono; exact Hq].
+        -- apply Hmono; exact Hq.
+Qed.
+
+Lemma active_paths_app : forall l d, id_in_use d = true ->
+  active_paths (l ++ [d]) = active_paths l ++ [id_path d].
+Proof.
+  intros l d H. unfold active_paths, get_active. rewrite filter_app, map_app. cbn. rewrite H.
+  reflexivity.
+Qed.
+
+Lemma add_named_mono : forall own pkg l q,
+  In q (active_paths l) -> In q (active_paths (snd (add_named own pkg l))).
+Proof.
+  intros own pkg l q H. unfold add_named. destruct pkg as [[path pname]|]; [|exact H].
+  destruct (String.eqb path own); [exact H|].
+  destruct (mark_in_use path l) as [[a l']|] eqn:Em; cbn [snd].
+  - apply (proj2 (mark_in_use_some _ _ _ _ Em)). exact H.
+  - rewrite active_paths_app by reflexivity. apply in_or_app. left. exact H.
+Qed.
+
+Lemma add_named_active : forall own pkg l p,
+  In p (foreign own pkg) -> In p (active_paths (snd (add_named own pkg l))).
+Proof.
+  intros own pkg l p H. unfold foreign in H. unfold add_named.
+  destruct pkg as [[path pname]|]; [|contradiction].
+  destruct (String.eqb path own); [contradiction|].
+  destruct H as [H|[]]. subst p.
+  destruct (mark_in_use path l) as [[a l']|] eqn:Em; cbn [snd].
+  - exact (proj1 (mark_in_use_some _ _ _ _ Em)).
+  - rewrite active_paths_app by reflexivity. apply in_or_app. right. cbn. left. reflexivity.
+Qed.
+
+Definition mono_on (f : gty -> ihandler -> string * ihandler) (t : gty) : Prop :=
+  forall l q, In q (active_paths l) -> In q (active_paths (snd (f t l))).
+
+Lemma thread_mono : forall f ts, Forall (mono_on f) ts ->
+  forall l q, In q (active_paths l) -> In q (active_paths (snd (thread f ts l))).
+Proof.
+  intros f ts H. induction H as [|a rest Ha Hrest IH]; intros l q Hq; cbn [thread].
+  - exact Hq.
+  - destruct (f a l) as [s l1] eqn:E1. destruct (thread f rest l1) as [ss l2] eqn:E2. cbn [snd].
+    change l2 with (snd (ss, l2)). rewrite <- E2. apply IH.
+    change l1 with (snd (s, l1)). rewrite <- E1. apply Ha. exact Hq.
+Qed.
+
+Lemma extract_ref_mono : forall own r t, mono_on (extract_ref own r) t.
+Proof.
+  intros own r t. induction t using gty_ind2; unfold mono_on in *; intros l q Hq;
+    cbn [extract_ref].
+  - exact Hq.
+  - destruct (extract_ref own r t l) as [s l1] eqn:E. cbn [snd].
+    change l1 with (snd (s, l1)). rewrite <- E. apply IHt. exact Hq.
+  - destruct (extract_ref own r t l) as [s l1] eqn:E. cbn [snd].
+    change l1 with (snd (s, l1)). rewrite <- E. apply IHt. exact Hq.
+  - destruct (extract_ref own r t l) as [s l1] eqn:E. cbn [snd].
+    change l1 with (snd (s, l1)). rewrite <- E. apply IHt. exact Hq.
+  - destruct (extract_ref own r t1 l) as [sk l1] eqn:E1.
+    destruct (extract_ref own r t2 l1) as [sv l2] eqn:E2. cbn [snd].
+    change l2 with (snd (sv, l2)). rewrite <- E2. apply IHt2.
+    change l1 with (snd (sk, l1)). rewrite <- E1. apply IHt1. exact Hq.
+  - destruct (add_named own pkg l) as [qq l1] eqn:E1.
+    destruct (thread (extract_ref own r) args l1) as [ss l2] eqn:E2. cbn [snd].
+    change l2 with (snd (ss, l2)). rewrite <- E2. apply thread_mono; [exact H|].
+    change l1 with (snd (qq, l1)). rewrite <- E1. apply add_named_mono. exact Hq.
+  - exact Hq.
+Qed.
+
+Definition covers_on (own : string) (f : gty -> ihandler -> string * ihandler) (t : gty) : Prop :=
+  forall l p, In p (mentions own t) -> In p (active_paths (snd (f t l))).
+
+Lemma thread_covers : forall own f ts,
+  Forall (mono_on f) ts -> Forall (covers_on own f) ts ->
+  forall l p, In p (flat_map (mentions own) ts) -> In p (active_paths (snd (thread f ts l))).
+Proof.
+  intros own f ts Hm Hc. induction Hc as [|a rest Ha Hrest IH]; intros l p Hp; cbn [flat_map] in Hp.
+  - contradiction.
+  - inversion Hm as [|a' rest' Hma Hmrest]; subst. cbn [thread].
+    destruct (f a l) as [s l1] eqn:E1. destruct (thread f rest l1) as [ss l2] eqn:E2. cbn [snd].
+    change l2 with (snd (ss, l2)). rewrite <- E2.
+    apply in_app_or in Hp. destruct Hp as [Hp|Hp].
+    + apply thread_mono; [exact Hmrest|]. change l1 with (snd (s, l1)). rewrite <- E1.
+      apply Ha. exact Hp.
+    + apply IH; assumption.
+Qed.
+
+Lemma Forall_all : forall (A : Type) (P : A -> Prop) (l : list A), (forall x, P x) -> Forall P l.
+Proof. intros A P l H. induction l; constructor; auto. Qed.
+
+(* after rendering a type, the import of every foreign package it mentions is active *)
+Lemma extract_ref_covers : forall own r t l p,
+  In p (mentions own t) -> In p (active_paths (snd (extract_ref own r t l))).
+Proof.
+  intros own r t. induction t using gty_ind2; intros l p Hp; cbn [mentions] in Hp;
+    cbn [extract_ref]; try contradiction.
+  - destruct (extract_ref own r t l) as [s l1] eqn:E. cbn [snd].
+    change l1 with (snd (s, l1)). rewrite <- E. apply IHt. exact Hp.
+  - destruct (extract_ref own r t l) as [s l1] eqn:E. cbn [snd].
+    change l1 with (snd (s, l1)). rewrite <- E. apply IHt. exact Hp.
+  - destruct (extract_ref own r t l) as [s l1] eqn:E. cbn [snd].
+    change l1 with (snd (s, l1)). rewrite <- E. apply IHt. exact Hp.
+  - destruct (extract_ref own r t1 l) as [sk l1] eqn:E1.
+    destruct (extract_ref own r t2 l1) as [sv l2] eqn:E2. cbn [snd].
+    change l2 with (snd (sv, l2)). rewrite <- E2.
+    apply in_app_or in Hp. destruct Hp as [Hp|Hp].
+    + apply extract_ref_mono. change l1 with (snd (sk, l1)). rewrite <- E1. apply IHt1. exact Hp.
+    + apply IHt2. exact Hp.
+  - destruct (add_named own pkg l) as [qq l1] eqn:E1.
+    destruct (thread (extract_ref own r) args l1) as [ss l2] eqn:E2. cbn [snd].
+    change l2 with (snd (ss, l2)). rewrite <- E2.
+    apply in_app_or in Hp. destruct Hp as [Hp|Hp].
+    + apply thread_mono; [apply Forall_all; intros x; apply extract_ref_mono|].
+      change l1 with (snd (qq, l1)). rewrite <- E1. apply add_named_active. exact Hp.
+    + apply (thread_covers own); [apply Forall_all; intros x; apply extract_ref_mono | | exact Hp].
+      exact H.
+Qed.
+
+(* rendering further types never deactivates an import: all references of one generated file *)
+Lemma extract_all_covers : forall own r ts l p,
+  In p (flat_map (mentions own) ts) ->
+  In p (active_paths (snd (thread (extract_ref own r) ts l))).
+Proof.
+  intros own r ts l p H. apply (thread_covers own); [| | exact H]; apply Forall_all; intros x.
+  - apply extract_ref_mono.
+  - unfold covers_on. intros l0 p0. apply extract_ref_covers.
+Qed.
